@@ -102,5 +102,75 @@ package dtls
 // completed against the highest number seen in the epoch the record was protected in, not the current read epoch.
 //@ func Conn.openCiphertextWithGeneration
 //@ watch Conn.highestRemoteSequenceNumber
-//@ ensures sequence-completed-in-the-records-epoch: called("Conn.highestRemoteSequenceNumber") ==> uint16(argInt("Conn.highestRemoteSequenceNumber", 1)) == generation.Epoch
+//@ ensures sequence-completed-in-the-records-epoch: called("Conn.highestRemoteSequenceNumber") ==> argAs("Conn.highestRemoteSequenceNumber", 1, generation.Epoch) == generation.Epoch
+//@ end
+
+// ---- round 2 (h3) ----------------------------------------------------------------------------------------------
+// Per-epoch record numbering across a key update (RFC 9147 4.2.2 / 4.5.1): the highest record number seen is kept per
+// epoch, because the truncated sequence number of a record is completed against the highest number of the epoch the
+// record was protected in. A late record of a retained (older) generation must therefore advance the mark of ITS epoch
+// only - never the one of the connection's current receive epoch - and with its own sequence number; only a record the
+// replay detector reports as the newest of its epoch advances the mark at all.
+
+// The replay detector's accept function (pion/transport) is a library callback: assumed to write only pion/transport objects.
+//@ assume-pure freevar.accept writes github.com/pion/transport/
+
+// The mark itself: a per-epoch maximum. After the call the mark of the given epoch covers the number, it is the larger of
+// the old mark and the number (a fresh epoch starts from zero). (That no other epoch's mark moves is not claimed: the
+// quantified invariants over the slice were too slow to be stable.)
+//@ define RSN(c) dtlsstate.CommonState(c.state).RemoteSequenceNumber
+//@ func Conn.updateRemoteSequenceNumber
+//@ requires args: c != nil && wfState(c)
+//@ ensures mark-covers-the-number: int(epoch) < len(RSN(c)) && RSN(c)[int(epoch)] >= sequenceNumber
+//@ ensures mark-never-goes-back: int(epoch) < old(len(RSN(c))) && sequenceNumber <= old(RSN(c)[int(epoch)]) ==> RSN(c)[int(epoch)] == old(RSN(c)[int(epoch)])
+//@ ensures mark-advances-to-the-number: int(epoch) < old(len(RSN(c))) && sequenceNumber > old(RSN(c)[int(epoch)]) ==> RSN(c)[int(epoch)] == sequenceNumber
+//@ ensures fresh-epoch-starts-at-the-number: int(epoch) >= old(len(RSN(c))) ==> RSN(c)[int(epoch)] == sequenceNumber
+//@ ensures never-shrinks: len(RSN(c)) >= old(len(RSN(c)))
+//@ ensures state-kept: wfState(c)
+//@ loop #1: same-common: common == dtlsstate.CommonState(c.state) && common != nil && wfState(c)
+//@ loop #1: grows: len(common.RemoteSequenceNumber) >= old(len(RSN(c)))
+//@ loop #1: bounded: len(common.RemoteSequenceNumber) > old(len(RSN(c))) ==> len(common.RemoteSequenceNumber) <= int(epoch) + 1
+//@ loop #1: own-fresh-mark-zero: int(epoch) >= old(len(RSN(c))) && int(epoch) < len(common.RemoteSequenceNumber) ==> common.RemoteSequenceNumber[int(epoch)] == 0
+//@ loop #1: own-old-mark-kept: int(epoch) < old(len(RSN(c))) ==> common.RemoteSequenceNumber[int(epoch)] == old(RSN(c)[int(epoch)])
+//@ loop #2: same-common: common == dtlsstate.CommonState(c.state) && common != nil && wfState(c)
+//@ loop #2: has-epoch: int(epoch) < len(common.RemoteSequenceNumber) && len(common.RemoteSequenceNumber) >= old(len(RSN(c)))
+//@ loop #2: own-old-mark-kept: int(epoch) < old(len(RSN(c))) ==> common.RemoteSequenceNumber[int(epoch)] == old(RSN(c)[int(epoch)])
+//@ loop #2: own-fresh-mark-zero: int(epoch) >= old(len(RSN(c))) ==> common.RemoteSequenceNumber[int(epoch)] == 0
+//@ end
+
+//@ func Conn.protectedReplayMarker$1
+//@ watch accept Conn.updateRemoteSequenceNumber
+//@ requires captured: accept != nil && c != nil && wfState(c)
+//@ ensures commit-is-the-detectors-verdict: ncalls("accept") == 1 && result == retBool("accept", 0)
+//@ ensures newest-advances-mark-once: result ==> ncalls("Conn.updateRemoteSequenceNumber") == 1
+//@ ensures not-newest-keeps-mark: !result ==> !called("Conn.updateRemoteSequenceNumber")
+//@ ensures mark-of-the-records-own-epoch: called("Conn.updateRemoteSequenceNumber") ==> argAs("Conn.updateRemoteSequenceNumber", 1, epoch) == old(epoch)
+//@ ensures mark-is-the-records-own-number: called("Conn.updateRemoteSequenceNumber") ==> argU64("Conn.updateRemoteSequenceNumber", 2) == old(sequenceNumber)
+//@ ensures mark-on-this-connection: called("Conn.updateRemoteSequenceNumber") ==> argAs("Conn.updateRemoteSequenceNumber", 0, c) == c
+//@ ensures mark-after-commit: called("Conn.updateRemoteSequenceNumber") ==> calledBefore("accept", "Conn.updateRemoteSequenceNumber")
+//@ end
+
+// Acknowledgement of received DTLS 1.3 handshake records (RFC 9147 7.1; property: "UpdateKeys returns success only
+// after the peer acknowledged the update ... under every loss/duplication/reordering pattern of the KeyUpdate and ACK
+// records"): every protected (epoch >= 2) handshake record that the reassembly buffer accepted is queued for
+// acknowledgement (exactly one entry; that the entry is the record's own number is not decided: struct-element append,
+// engine limit) - a retransmitted KeyUpdate (the peer resends it under a new record number
+// when our ACK was lost) just like a new one; otherwise the peer's update can never complete. Records of DTLS 1.2
+// connections or of the unprotected epochs are never queued; a refused record queues nothing.
+//@ define ACCEPTED_HS() (retErr("FragmentBuffer.Push", 2) == nil && retBool("FragmentBuffer.Push", 0))
+
+// The version test is the code's own comparison of the connection's local version with DTLS 1.3 (Version.Equal); the
+// record header is the caller's (not written here).
+//@ define IS13REC() (retBool("Version.Equal", 0) && old(header.Epoch) >= 2)
+
+//@ func Conn.bufferHandshakeRecord
+//@ watch FragmentBuffer.Push Version.Equal
+//@ ensures c20-protected-handshake-record-queued-for-ack: ACCEPTED_HS() && IS13REC() ==> len(c.pendingACKs) == old(len(c.pendingACKs)) + 1
+//@ ensures c20-retransmitted-record-acknowledged-too: ACCEPTED_HS() && retBool("FragmentBuffer.Push", 1) && IS13REC() ==> len(c.pendingACKs) == old(len(c.pendingACKs)) + 1 && result0.retransmit
+//@ ensures c20-unprotected-or-legacy-not-queued: !IS13REC() ==> len(c.pendingACKs) == old(len(c.pendingACKs))
+//@ ensures c20-refused-not-queued: !ACCEPTED_HS() ==> len(c.pendingACKs) == old(len(c.pendingACKs))
+//@ ensures c20-version-tested: ACCEPTED_HS() ==> called("Version.Equal")
+//@ ensures c20-tested-against-dtls13: ACCEPTED_HS() ==> argAs("Version.Equal", 1, protocol.Version1_3).Major == 0xfe && argAs("Version.Equal", 1, protocol.Version1_3).Minor == 0xfc
+//@ ensures c20-unlocked: !held("Conn.lock")
+//@ loop #1: c20-unlocked: !held("Conn.lock")
 //@ end
